@@ -45,6 +45,8 @@
                                    A panic of the request prints `panic:specify` (foreign struct /
                                    twice), `panic:backdate-violation`, or `panic:model:<class>`; the
                                    model does not predict the case after a panic: later ops print `dead`.
+    ref <q>                        (oracle) the from-scratch value `sem` of query q under the current
+                                   inputs: `v=<n>[ ts=<k>:<v>]` — no state change, no events
     dump                           (debug) free format
   anything else: `bad-op`.
 -/
@@ -289,6 +291,16 @@ def handle (d : DState) (line : String) : Option (DState × String) :=
         | some c => (match s1.slots c with | some sl => s!" ts={sl.k}:{sl.v}" | none => " ts=?")
         | none => ""
       some ({ d with started := true, st := s1, canon := evs.1 }, s!"v={v.n}{ts} ev={evs.2}")
+  | ["ref", q] => do
+    if !d.active then none
+    let q ← nat? q
+    if q ≥ d.exprs.length then none
+    let P := progOf d.exprs d.sbody
+    let v := sem P d.st.inp q
+    let ts := match v.h with
+      | some c => (match (semRes P d.st.inp c).ts with | some (k, x) => s!" ts={k}:{x}" | none => " ts=?")
+      | none => ""
+    some (d, s!"v={v.n}{ts}")
   | ["dump"] => if d.active then some (d, dump d) else none
   | _ => none
 
